@@ -701,5 +701,43 @@ fn export_ladder(prop: &str, thorough: bool) -> Vec<Case> {
             }
         }
     }
+    // trees that were big and shrank: arena at its high-water mark, few entries left at export
+    let mut peaks: Vec<i64> = vec![20, 100, 1000, 1044, 8 * 1024 + 20, 10_000];
+    if thorough {
+        peaks.extend([100_000, 128 * 1024 + 20]);
+    }
+    for &n in &peaks {
+        for order in [0i64, 2] {
+            for cap in [8i64, 0] {
+                // (a) everything expires and is lazily drained, then a few fresh entries
+                let mut c = Case::new(prop, "key");
+                c.set("coll", "tree").set("cap", cap).set("U", 8).set("snap", if n <= 1000 { 1 } else { 0 });
+                c.ops.push(RawOp::new(K_BULK, &[n, order, 3]));
+                c.ops.push(RawOp::new(K_ADV, &[1]));
+                c.ops.push(RawOp::new(K_DRAIN, &[(n / 8).max(8)]));
+                for k in 0..3 {
+                    c.ops.push(RawOp::new(K_INS, &[k * 7, 50]));
+                }
+                c.ops.push(RawOp::new(K_EXPORT, &[0]));
+                v.push(c);
+                // (b) clear and refill with a handful
+                let mut c = Case::new(prop, "key");
+                c.set("coll", "tree").set("cap", cap).set("U", 8).set("snap", if n <= 1000 { 1 } else { 0 });
+                c.ops.push(RawOp::new(K_BULK, &[n, order, 0]));
+                c.ops.push(RawOp::new(K_CLEAR, &[0]));
+                c.ops.push(RawOp::new(K_BULK, &[5, 0, 0]));
+                c.ops.push(RawOp::new(K_EXPORT, &[0]));
+                v.push(c);
+                // (c) most expire, export purges them itself
+                let mut c = Case::new(prop, "key");
+                c.set("coll", "tree").set("cap", cap).set("U", 8).set("snap", if n <= 1000 { 1 } else { 0 });
+                c.ops.push(RawOp::new(K_BULK, &[n, order, 2]));
+                c.ops.push(RawOp::new(K_ADV, &[1]));
+                c.ops.push(RawOp::new(K_DRAIN, &[(n / 4).max(8)]));
+                c.ops.push(RawOp::new(K_EXPORT, &[0]));
+                v.push(c);
+            }
+        }
+    }
     v
 }
